@@ -217,4 +217,67 @@ Proof. eexists; eexists. split; [vm_compute; reflexivity | vm_compute; reflexivi
             ("C15_Inv_wf", "@check", "Inv_wf"),
             ("C15_Inv_lsm", "@check", "Inv_lsm"),
             ("C15_hist", "@check", "C15_hist")]),
+ "C17": dict(
+   header="""   C17 — no operation touches memory outside its own structures.  PARTIAL BY NATURE (DESIGN.md 6.17).
+   What is proved is the part that is logic: in the model EVERY indexed read is a checked read
+   (nth_res -> Err OutOfBounds, select -> Err UBSelect, end() dereference -> Err UBDerefEnd), so a theorem
+   'the operation returns Ok' is 'no access outside the structures' at the model level:
+   * C17_no_oob_ef_pred, C17_no_oob_bucketing: succinct predecessor and bucket table lookups;
+   * C17_no_oob_mapped: the exponential search past the range never reads at or beyond end();
+   * C17_no_oob_dyn_find / _lower_bound / _insert: every query and update of the dynamic container.
+   (C03/C04/C13/C14 theorems have the same '= Ok' shape for the builder and the multidimensional paths.)
+   NOT modelled: heap lifetime, allocator behaviour, alignment, library internals.  The run-time side
+   (finding replays) runs every engine's cases under AddressSanitizer/UBSan on the real code.""",
+   imports=["Base", "Fp", "PlaModel", "GenLeaf", "IndexModel", "VariantsModel", "EfPred", "BucketTop", "MappedModel", "MappedQueries", "MappedFile",
+            "DynModel", "DynSpec", "DynCoreLemmas", "DynCoreInv", "DynCoreRefine", "DynCoreQuery", "DynCoreTotal", "DynCoreLB", "DynCore", "Bounds"],
+   entries=[("C17_no_oob_ef_pred", "Bounds.v", "no_oob_ef_pred"),
+            ("C17_no_oob_bucketing", "Bounds.v", "no_oob_bucketing_segment_for_key"),
+            ("C17_no_oob_mapped", "Bounds.v", "no_oob_mapped_upper_bound"),
+            ("C17_no_oob_dyn_find", "@check", "no_oob_dyn_find"),
+            ("C17_no_oob_dyn_lower_bound", "@check", "no_oob_dyn_lower_bound"),
+            ("C17_no_oob_dyn_insert", "@check", "no_oob_dyn_insert")]),
+ "C18": dict(
+   header="""   C18 — the C interface gives the same guarantees as the C++ classes it wraps.
+   The wrapper is the C++ PGMIndex with Epsilon chosen at run time and EpsilonRecursive = the translated
+   EPSILON_RECURSIVE, and DynamicPGMIndex<T,T> with default arguments; the model is IndexModel / DynModel
+   at those parameters, so the theorems are the general ones instantiated (they quantify over every eps):
+   * C18_create_null_iff_reserved: create returns NULL exactly when the data ends with the reserved value;
+   * C18_window_present / C18_window_absent / C18_lb_range_eq: the range arithmetic at run-time eps;
+   * C18_dyn_find / C18_dyn_lower_bound: the dynamic wrappers against the ordered map (C05).
+   PARTIAL like C01/C02: the composition with build/routing is tied by the correspondence check, which
+   drives ONLY the extern "C" entry points of cpgm.h.""",
+   imports=["Base", "PlaModel", "PlaSpec", "GenLeaf", "IndexModel", "IndexProofs", "DynModel", "DynSpec", "DynCoreLemmas", "DynCoreInv",
+            "DynCoreRefine", "DynCoreQuery", "DynCoreTotal", "DynCoreLB", "DynCore", "MultiModel", "VariantsModel", "MappedModel", "Reject"],
+   entries=[("C18_create_null_iff_reserved", "Reject.v", "build_rejects_iff"),
+            ("C18_window_present", "IndexProofs.v", "window_present"),
+            ("C18_window_absent", "IndexProofs.v", "window_absent"),
+            ("C18_lb_range_eq", "IndexProofs.v", "lb_range_eq"),
+            ("C18_dyn_find", "@check", "C05_find"),
+            ("C18_dyn_lower_bound", "@check", "C05_lower_bound")]),
+ "C20": dict(
+   header="""   C20 — reserved values and invalid arguments are rejected, never silently indexed.  Decision rules
+   proved as equivalences / implications on the models, for every input:
+   * C20_build_rejects_iff: PGMIndex::build (hence every static class and the C create) fails with
+     invalid_argument IF AND ONLY IF the data is non-empty and ends with the reserved largest value;
+   * C20_bucketing / _ef / _mapped_rejects_reserved: the variants inherit it;
+   * C20_dyn_ctor_rejects_base / _accepts_pow2: base >= 2 is rejected iff it is not a power of two;
+   * C20_dyn_bulk_rejects_unsorted: an unsorted pair ANYWHERE in the bulk-load range is rejected;
+   * C20_insert_rejects_tombstone: the reserved mapped value is rejected (the functional model returns
+     no new state, i.e. the container is exactly as it was; the harness compares the dumped state);
+   * C20_range_rejects: lo > hi is rejected;  C20_multi_rejects_wide: a coordinate too wide anywhere;
+   * C20_add_point_rejects_iff: the builder raises logic_error iff the key does not exceed its predecessor
+     inside a segment;  C20_pla_init_rejects_iff: negative epsilon.""",
+   imports=["Base", "Fp", "PlaModel", "GenLeaf", "IndexModel", "DynModel", "DynSpec", "MultiModel", "VariantsModel", "MappedModel", "Reject"],
+   entries=[("C20_build_rejects_iff", "Reject.v", "build_rejects_iff"),
+            ("C20_bucketing_rejects_reserved", "Reject.v", "bucketing_rejects_reserved"),
+            ("C20_ef_rejects_reserved", "Reject.v", "ef_rejects_reserved"),
+            ("C20_mapped_rejects_reserved", "Reject.v", "mapped_range_ctor_rejects_reserved"),
+            ("C20_dyn_ctor_rejects_base", "@checki", "dyn_ctor_rejects_base"),
+            ("C20_dyn_ctor_accepts_pow2", "@checki", "dyn_ctor_accepts_pow2"),
+            ("C20_dyn_bulk_rejects_unsorted", "@checki", "dyn_bulk_rejects_unsorted"),
+            ("C20_insert_rejects_tombstone", "@check", "insert_rejects_tombstone"),
+            ("C20_range_rejects", "@check", "range_rejects_iff_gt"),
+            ("C20_multi_rejects_wide", "Reject.v", "multi_rejects_wide"),
+            ("C20_add_point_rejects_iff", "Reject.v", "add_point_rejects_iff"),
+            ("C20_pla_init_rejects_iff", "Reject.v", "pla_init_rejects_iff")]),
 }
